@@ -1,5 +1,6 @@
 import Mp4ff.Model.Segments
 import Mp4ff.Lemmas.C12
+import Mp4ff.Expect.Transcribed
 /-!
 # C12 — fragments are grouped into segments faithfully and indexes tile the media
 Property theorems about `Model/Segments.lean` (`File.AddChild`'s grouping of top-level boxes and the sidx reference
@@ -78,5 +79,10 @@ theorem sidx_tiles (starts sizes : List Nat) (hl : starts.length = sizes.length)
 
 /-- non-vacuity: three contiguous segments of sizes 10, 20, 30 starting at byte 100 -/
 example : ([100, 110, 130] : List Nat).getD 0 0 + refStart [10, 20, 30] 2 = 130 := by decide
+
+/-- the Go functions the models of this property transcribe (committed table `spec/transcribed.json`, checked against
+    the current source by the extractor on every run) all still exist -/
+theorem model_sources_exist :
+    (["Boxes.lean", "Segments.lean"] : List String).all Mp4ff.Expect.presentFor = true := by decide +kernel
 
 end Mp4ff.Segments.C12
